@@ -62,6 +62,7 @@ class Drive402:
         self.mode_writes = []
         self.supported = supported
         self.on_change = None             # callable() when the statusword changed (PDO transport)
+        self.qsa_auto = False             # quick stop option code "stay" (False) or "then disable" (True)
         self.fault_cause_present = False  # while the cause of a fault persists a fault reset is not accepted (CiA 402)
 
     # ---- status
@@ -77,6 +78,12 @@ class Drive402:
             self.on_change()
 
     def _auto(self):
+        if self.state == QSA and self.qsa_auto:
+            # quick stop completed: the drive leaves QUICK STOP ACTIVE on its own (transition 12 without a command)
+            if self._auto_count >= self.auto_delay:
+                self._goto(SOD, 12)
+            else:
+                self._auto_count += 1
         if self.state in (NRTSO, FRA):
             if self._auto_count >= self.auto_delay:
                 self._goto(SOD if self.state == NRTSO else FAULT, 1 if self.state == NRTSO else 14)
